@@ -15,7 +15,12 @@ type Float float32
 var _ objecttypes.Value = Float(0)
 
 func MapFloat(lexicalForm string) (Float, error) {
-	vFloat64, err := strconv.ParseFloat(xsdutil.WhiteSpaceCollapse(lexicalForm), 32)
+	lexicalForm = xsdutil.WhiteSpaceCollapse(lexicalForm)
+	if !floatLexicalRE.MatchString(lexicalForm) {
+		return Float(0), rdf.ErrLiteralLexicalFormNotValid
+	}
+
+	vFloat64, err := strconv.ParseFloat(lexicalForm, 32)
 	if err != nil {
 		return Float(0), fmt.Errorf("%w: %v", rdf.ErrLiteralLexicalFormNotValid, err)
 	}
